@@ -14,6 +14,7 @@ pub mod c12;
 pub mod c13;
 pub mod c14;
 pub mod c15;
+pub mod c16;
 pub mod history;
 
 pub struct Ctx {
@@ -58,6 +59,7 @@ pub fn dispatch(prop: &str, tier: Tier, seed: u64, only: Option<usize>, args: &[
         "C13" => c13::run(&ctx),
         "C14" => c14::run(&ctx),
         "C15" => c15::run(&ctx),
+        "C16" => c16::run(&ctx),
         _ => {
             eprintln!("unknown property {prop}");
             2
